@@ -380,6 +380,12 @@ class warn_config(object):
         self.cm = warnings.catch_warnings()
         self.cm.__enter__()
         warnings.simplefilter({"ignore": "ignore", "default": "default", "error": "error"}[self.mode])
+        if self.mode == "error":
+            # announcements about the life cycle of an API (a maintainer may well start deprecating xfab.tools) and
+            # interpreter housekeeping are not escalated: the configuration modelled is "treat run-time warnings as
+            # errors", not "fail on deprecations"
+            for cat in (DeprecationWarning, PendingDeprecationWarning, FutureWarning, ImportWarning, ResourceWarning):
+                warnings.filterwarnings("ignore", category=cat)
         return self
 
     def __exit__(self, *a):
